@@ -480,7 +480,7 @@ def run_script(exe, lines, model_pre=(), tmpdir=None, real_env=None):
     return res
 
 
-REAL_ONLY = {"sys.info", "codec.sweep32", "crc.cpu", "cz.raw", "cz.direct", "cz.libinfo", "cz.gen", "cz.big", "mt.run", "crc.big", "rv.big4g", "wa.huge", "wa.gen", "crc.mt", "crc.edge", "crc.hist"}
+REAL_ONLY = {"sys.info", "codec.sweep32", "crc.cpu", "cz.raw", "cz.direct", "cz.libinfo", "cz.gen", "cz.big", "mt.run", "crc.big", "rv.big4g", "wa.huge", "wa.gen", "crc.mt", "crc.edge", "crc.hist", "cz.huge", "crc.early"}
 # requests that legitimately take long (multi-gigabyte probes)
 OP_TIMEOUT = {"rv.big4g": 1500, "wa.huge": 1500, "crc.big": 900, "codec.sweep32": 1500, "mt.run": 600, "cz.big": 600}
 MODEL_ONLY = {"enc.raw", "enc.legal", "enc.file", "ctab", "cz.plan", "f.validate", "tp.enum"}
